@@ -9,9 +9,9 @@ import units.fx as fxu
 import units.drv as drvu
 
 NAME = 'rnd'
-OVERLAYS = ['bk', 'fx', 'ord', 'drv', 'agg', 'costs', 'rnd']
+OVERLAYS = ['bk', 'fx', 'ord', 'drv', 'inp', 'agg', 'costs', 'rnd']
 VERUS_FLAGS = ['--no-lifetime']
-VERIFY_MODULES = ['app::approot']
+VERIFY_MODULES = ['app::approot', 'cmd']
 
 
 def OVERLAY_FILTER(op):
@@ -37,22 +37,50 @@ def build(ctx):
     import units.ord as ordu
     o = ordu.ord_parts(ctx)
     ar = drvu.approot_src(ctx, ['type Error', 'fn run_acb_app_to_delta_models', 'struct AllCumulativeCapitalGains', 'fn get_cumulative_capital_gains',
-                                'struct AppRenderResult', 'fn run_acb_app_to_render_model', 'fn write_render_result', 'fn run_acb_app_to_writer'])
+                                'struct AppRenderResult', 'fn run_acb_app_to_render_model', 'fn write_render_result', 'fn run_acb_app_to_writer',
+                                'struct Options', 'fn run_acb_app_summary_to_console', 'fn run_acb_app_to_console'])
+    ar.ext_fn('run_acb_app_summary_to_console', why='summary mode front end: run_acb_app_summary_to_model is verified in unit smd, the printing of its result is not')
+    ar.sub(r'(?m)^#\[cfg\(not\(target_arch = "wasm32"\)\)\]\n', '', 'select')
+    ar.replace('let writer_ref: &mut dyn AcbWriter = writer.as_mut();', 'let writer_ref: &mut dyn AcbWriter = &mut *writer;', 'R36')
+    ar.replace('super::outfmt::csv::CsvWriter::new_to_output_dir(&dir_path)', 'crate::wrx::csv_dir_writer(&dir_path)', 'H')
+    ar.sub(r'(?s)Box::new\(super::outfmt::text::TextWriter::new\(\s*WriteHandle::stdout_write_handle\(\),\s*\)\)', 'Box::new(crate::wrx::text_writer(WriteHandle::stdout_write_handle()))', 'H', required=True)
+
     ar.ext_fn('get_cumulative_capital_gains', why='verified in unit agg; its result is left arbitrary here')
     ar.replace("\nstruct AllCumulativeCapitalGains", "\npub struct AllCumulativeCapitalGains", 'R14')
     ar.replace("\nfn get_cumulative_capital_gains", "\npub fn get_cumulative_capital_gains", 'R14')
     ar.replace("deltas_results_by_sec.into_iter().collect();", "hole_map_into_vec(deltas_results_by_sec);", 'H')
     ar.replace("let mut secs: Vec<Security> = sec_render_tables.keys().cloned().collect();", "let mut secs: Vec<Security> = hole_table_keys(sec_render_tables);", 'H')
     ar.sub(r'(?s)println!\(\s*"\\n\[!\] There are errors for the following securities: \{\}",\s*secs_with_errors\.join\(", "\)\s*\);', 'crate::tracing::info!("errors");', 'R3', required=True)
+    cm = Src(ctx, 'cmd.rs').cut_tests().standard()
+    cm.only(['struct Args', 'fn command_main'], why='the long help text is string code')
+    cm.sub(r'(?ms)^use [^;]*;\n', '', 'select')
+    cm.sub(r'(?ms)^#\[command\(.*?\)\]\n', '', 'R33')
+    cm.sub(r'(?ms)^\s*#\[arg\(.*?\)\]\n', '', 'R33')
+    cm.sub(r'#\[derive\(Parser\)\]\n', '', 'R33')
+    cm.note('R33', 'clap attributes and derive removed from cmd::Args (plain struct; parsing of the command line is a hole)')
+    cm.replace('    crate::tracing::setup_tracing();\n', '', 'R3')
+    cm.sub(r'(?s)    if args\.verbose \{\s*crate::log::set_verbose\(true\);\s*\}\n', '', 'R3', required=True)
+    cm.replace('let args = Args::parse();', 'let args = hole_parse_args();', 'H')
+    cm.replace('DescribedReader::from_file_path(PathBuf::from(csv_name))', 'DescribedReader::from_file_name(csv_name)', 'H')
+    cm.replace('crate::util::os::home_dir_path()', 'crate::cli::home_dir_path()', 'H')
+    cm.replace('Box::new(CsvRatesCache::new(home_dir, err_printer.clone())),', 'crate::cli::csv_rates_cache(home_dir, err_printer.clone()),', 'H')
+    cm.replace('JsonRemoteRateLoader::new_boxed(StandaloneAppRequester::new_boxed()),', 'crate::cli::json_remote_loader(),', 'H')
+    cm.replace('async_std::task::block_on(run_acb_app_to_console(', '(run_acb_app_to_console(', 'R10')
+    cmd_use = ("use crate::cli::ExitCode;\nuse crate::app::approot::run_acb_app_to_console;\nuse crate::fx::io::RateLoader;\nuse crate::portfolio::io::tx_csv::TxCsvParseOptions;\n"
+               "use crate::util::date::parse_standard_date;\nuse crate::util::date_fmt::parse_dyn_date_format;\nuse crate::app::input_parse::parse_initial_status;\n"
+               "use crate::util::rw::WriteHandle;\nuse crate::util::rw_reader::DescribedReader;\nuse vstd::std_specs::iter::IteratorSpec;\n")
     om = Src(ctx, 'app/outfmt/model.rs').cut_tests().standard()
     om.sub(r'(?ms)^use [^;]*;\n', '', 'select')
     ar.replace("let mut deltas_copy = deltas.iter().cloned().collect();", "let mut deltas_copy = hole_clone_deltas(deltas);", 'H')
     app_use = (drvu.APP_USE + "use crate::stdx::*;\nuse crate::portfolio::*;\nuse crate::portfolio::bookkeeping::*;\n"
                "use crate::portfolio::render::{render_aggregate_capital_gains, render_tx_table_model, CostsTables, RenderTable};\n")
-    app = mod('app', mod('outfmt', mod('model', "use crate::portfolio::render::RenderTable;\n" + om.text())) + mod('approot', app_use + "use crate::app::outfmt::model::{AcbWriter, OutputType};\n" + ar.text()))
+    app = mod('app', mod('outfmt', mod('model', "use crate::portfolio::render::RenderTable;\n" + om.text())) + mod('approot', app_use + "use crate::app::outfmt::model::{AcbWriter, OutputType};\n" + ar.text()) + drvu.input_parse_part(ctx) + "pub use self::approot::Options;\n") + mod('cmd', cmd_use + cm.text())
     ustubs = open(os.path.join(os.path.dirname(os.path.dirname(os.path.abspath(__file__))), 'shim', 'util_stubs.rs')).read()
     render_use = "use crate::portfolio::{CumulativeCapitalGains, TxDelta};\nuse crate::portfolio::bookkeeping::Costs;\n"
     head = drvu.with_csv_stubs(shim('base', 'std').replace('verus! {\n/// Trusted contracts for std', fxu.MACROS + 'verus! {\n/// Trusted contracts for std', 1))
+    from vx.build import MARKER
+    sd = os.path.join(os.path.dirname(os.path.dirname(os.path.abspath(__file__))), 'shim')
+    head = head.replace(MARKER, '') + open(os.path.join(sd, 'wr_stubs.rs')).read() + open(os.path.join(sd, 'cli_stubs.rs')).read() + MARKER
     return (head + "verus! {\n"
             + bk.assemble(p, extra_util=ustubs, extra_bookkeeping=mod('costs', c.text()) + "pub use self::costs::*;\n",
                           extra_portfolio=mod('io', mod('tx_loader', f['txl']) + drvu.tx_csv_part(ctx)) + o['mods']
@@ -65,7 +93,9 @@ def build(ctx):
 def OVERLAY_SPLIT(op):
     if 'mod tx_csv' in op['path'] or 'fn run_acb_app_to_delta_models' in op['path'] or op.get('before_item') == 'fn run_acb_app_to_delta_models':
         return 'drv'
-    if 'mod app' in op['path'] or 'mod render' in op['path']:
+    if 'mod input_parse' in op['path']:
+        return 'inp'
+    if 'mod app' in op['path'] or 'mod render' in op['path'] or 'mod cmd' in op['path']:
         return 'rnd'
     if 'mod cumulative_gains' in op['path']:
         return 'agg'
@@ -76,5 +106,6 @@ def OVERLAY_SPLIT(op):
 
 TAG_RULES = [
     (r'approot::fn run_acb_app_to_render_model', ['C09', 'C17']),
+    (r'cmd::', ['C16', 'C05']),
     (r'approot::', ['C08', 'C04', 'C06']),
 ] + bk.TAG_RULES
